@@ -6,7 +6,9 @@ from common import *
 from gen import sx
 
 EXE = os.path.join(ROOT, "staticharness", "target", "debug", "staticharness")
-ALPHAS = {0: "ab", 1: "ab", 2: "ab", 3: "f([x", 4: "abcd", 5: "abc", 6: "ab", 7: "abc", 8: "ab", 9: "19-", 10: "ab+"}
+ALPHAS = {"C11": {0: "ab", 1: "ab", 2: "ab", 3: "f([x", 4: "abcd", 5: "abc", 6: "ab", 7: "abc", 8: "ab", 9: "19-", 10: "ab+"},
+          # C12: second define refused; clone / drop / box of recursive handles; mutual declare/define
+          "C12": {20: "()x", 21: "()", 22: "()[]"}}
 
 def build(timeout=900):
     d = os.path.join(ROOT, "staticharness")
@@ -23,8 +25,8 @@ def run(pid, tier, seed):
     rng = random.Random(seed)
     lines, meta = [], {}
     cid = 0
-    maxlen = 4 if tier == "quick" else 6
-    for sid, al in ALPHAS.items():
+    maxlen = (4 if tier == "quick" else 6) + (2 if pid == "C12" else 0)
+    for sid, al in ALPHAS[pid].items():
         for n in range(maxlen + 1):
             for t in itertools.product(al, repeat=n):
                 cid += 1
@@ -53,7 +55,7 @@ def run(pid, tier, seed):
         else: bad.append((c, sid, s, r))
     if bad:
         c, sid, s, r = min(bad, key=lambda x: (len(x[2]), x[1]))
-        res["violations"].append(("oracle", "a statically typed memoized grammar differs from its unmemoized twin",
+        res["violations"].append(("oracle", ("a statically typed memoized grammar differs from its unmemoized twin" if pid == "C11" else "a recursive handle (second define / clone / drop / box / mutual declare-define) misbehaves"),
                                   dict(static_case=sx([1, sid, [ord(ch) for ch in s]]), static_id=sid, input=s, result=r[:600], n_failures=len(bad),
                                        note="see /verif/staticharness/src/main.rs for the grammar with this static-id; M = memoized, P = plain")))
     return res
